@@ -317,3 +317,85 @@ Proof.
     apply (Qmult_le_r _ _ x Hx).
     setoid_replace (inject_Z m * / x * x) with (inject_Z m) by (field; lra). lra.
 Qed.
+
+(* ---------- the percentage never rounds above the exact percentage ---------- *)
+Lemma f_trunc_zero (e : Z) : f_trunc (0%Z, e) = 0%Z.
+Proof. unfold f_trunc. destruct (0 <=? e)%Z; [apply Z.shiftl_0_l|reflexivity]. Qed.
+
+Lemma mul_ratio_zero_l r : mul_ratio 0 r = 0%Z.
+Proof.
+  unfold mul_ratio. change (f_of_int 0) with (0%Z, 0%Z). destruct r as [mr er].
+  unfold f_mul. change (0 * mr)%Z with 0%Z. change (rne 0 1) with (0%Z, 0%Z). apply f_trunc_zero.
+Qed.
+
+Lemma mul_ratio_pct_zero v : mul_ratio v (f_pct 0) = 0%Z.
+Proof.
+  unfold mul_ratio. destruct (f_of_int v) as [mv ev].
+  assert (fst (f_pct 0) = 0%Z) as H0 by (vm_compute; reflexivity).
+  destruct (f_pct 0) as [m0 e0]. cbn [fst] in H0. subst m0.
+  unfold f_mul. rewrite Z.mul_0_r. change (rne 0 1) with (0%Z, 0%Z). apply f_trunc_zero.
+Qed.
+
+Theorem mul_pct_le_exact v p :
+  (0 <= v < 2 ^ 53)%Z -> (0 <= p < 2 ^ 53)%Z -> (v * p <= 100 * 2 ^ 44)%Z ->
+  (100 * mul_ratio v (f_pct p) <= v * p)%Z.
+Proof.
+  intros [Hv0 Hv] [Hp0 Hp] Hvp.
+  destruct (Z.eq_dec v 0) as [->|Hvn]; [rewrite mul_ratio_zero_l; lia|].
+  destruct (Z.eq_dec p 0) as [->|Hpn]; [rewrite mul_ratio_pct_zero; lia|].
+  assert (0 < v < 2 ^ 53)%Z as Hv' by lia. assert (0 < p < 2 ^ 53)%Z as Hp' by lia.
+  pose proof (val_of_int v Hv') as [Vv Mv]. pose proof (val_of_int p Hp') as [Vp Mp].
+  pose proof (val_of_int 100 ltac:(split; reflexivity)) as [Vc Mc].
+  unfold mul_ratio, f_pct.
+  pose proof (val_f_div (f_of_int p) (f_of_int 100) Mp Mc) as [[_ Hr] Mr].
+  set (r := f_div (f_of_int p) (f_of_int 100)) in *.
+  pose proof (val_f_mul (f_of_int v) r Mv Mr) as Hy.
+  set (y := f_mul (f_of_int v) r) in *.
+  assert (0 <= fst y)%Z as My by (apply f_mul_nonneg; lia).
+  pose proof (f_trunc_le_val y My) as Ht.
+  set (T := f_trunc y) in *.
+  rewrite Vv in Hy. rewrite Vp, Vc in Hr.
+  (* 100 T <= v p (1+u)^2 < v p + 1 *)
+  assert (inject_Z (100 * T) < inject_Z (v * p) + 1) as Hfin.
+  { rewrite !inject_Z_mult. change (inject_Z 100) with 100 in *.
+    assert (0 < inject_Z v) as Hv'' by (change 0 with (inject_Z 0); rewrite <- Zlt_Qlt; lia).
+    assert (0 <= inject_Z p) as Hp'' by (change 0 with (inject_Z 0); rewrite <- Zle_Qle; lia).
+    assert (inject_Z v * inject_Z p <= 100 * 17592186044416) as Hb.
+    { rewrite <- inject_Z_mult. change (100 * 17592186044416) with (inject_Z (100 * 2 ^ 44)).
+      rewrite <- Zle_Qle. exact Hvp. }
+    set (v' := inject_Z v) in *. set (p' := inject_Z p) in *. set (T' := inject_Z T) in *.
+    set (vr := val r) in *. set (vy := val y) in *. clearbody v' p' T' vr vy.
+    (* vy <= v' * vr * (1+u), vr * 100 <= p' (1+u) *)
+    assert (v' * (vr * 100) <= v' * (p' * (1 + u53))) as H1
+      by (rewrite !(Qmult_comm v'); apply Qmult_le_compat_r; lra).
+    assert (100 * T' <= v' * p' * (1 + u53) * (1 + u53)) as H2.
+    { apply Qle_trans with (100 * (v' * vr * (1 + u53))); [lra|].
+      setoid_replace (100 * (v' * vr * (1 + u53))) with (v' * (vr * 100) * (1 + u53)) by ring.
+      setoid_replace (v' * p' * (1 + u53) * (1 + u53)) with (v' * (p' * (1 + u53)) * (1 + u53)) by ring.
+      apply Qmult_le_compat_r; [exact H1|unfold u53; lra]. }
+    set (vp := v' * p') in *.
+    assert (vp * (1 + u53) * (1 + u53) == vp + vp * (2 * u53 + u53 * u53)) as Hexp by ring.
+    rewrite Hexp in H2.
+    assert (vp * (2 * u53 + u53 * u53) < 1) as Hsmall.
+    { assert (0 <= vp) as Hvp0.
+      { unfold vp. apply Qmult_le_0_compat; lra. }
+      apply Qle_lt_trans with (100 * 17592186044416 * (2 * u53 + u53 * u53)).
+      - apply Qmult_le_compat_r; [exact Hb|unfold u53; lra].
+      - unfold u53. reflexivity. }
+    lra. }
+  change 1 with (inject_Z 1) in Hfin. rewrite <- inject_Z_plus, <- Zlt_Qlt in Hfin. lia.
+Qed.
+
+Close Scope Q_scope.
+Open Scope Z_scope.
+From Verif Require Import C09.Spec C09.Proofs_Agg.
+
+(* the published amount never exceeds the exact configured percentage of capacity *)
+Corollary batch_dim_le_exact_pct d thr cap :
+  d_thr d = thr_term thr cap -> 0 <= thr < 2 ^ 53 -> 0 <= cap < 2 ^ 53 -> cap * thr <= 100 * 2 ^ 44 ->
+  100 * batch_dim d <= cap * thr.
+Proof.
+  intros Hd Ht Hc Hb. unfold thr_term in Hd.
+  destruct (thr <? 0) eqn:E; [apply Z.ltb_lt in E; lia|].
+  pose proof (batch_dim_cap d _ Hd). pose proof (mul_pct_le_exact cap thr Hc Ht Hb). lia.
+Qed.
